@@ -243,7 +243,7 @@ Definition read_csv (sample : list N) (eof : bool) (out_cap : nat) (chunks : lis
           match infer_schema recs with
           | None => ScanBindErr
           | Some s =>
-              match reader_loop d out_cap (has_header s) st_init chunks with
+              match reader_loop_h d out_cap (has_header s) h_init chunks with
               | None => ScanPanic
               | Some rows => ScanOk od s (type_rows (col_types s) rows)
               end
